@@ -895,19 +895,43 @@ func min(a, b int) int {
 	return b
 }
 
-// liveness runs one plain exchange through the same proxy instance on a fresh connection.
-func (r *run) liveness(addr string) string {
-	if !r.sc.anyLive() || r.sc.Special != "" {
-		return "skipped"
+// liveness answers "was the MOSN process able to serve a request while this one stayed silent?": one plain
+// exchange through a fresh proxy instance (own listener, cluster and upstream) of the same process.
+func (r *run) liveness(string) string {
+	uniq := mesh.Uniq()
+	shard, _ := ev.Shard()
+	aux := &run{sc: &Scenario{Proto: r.sc.Proto}, tok: "none", done: make(chan struct{}), poison: map[[2]int]bool{}}
+	defer close(aux.done)
+	u, err := newUpHost([4]byte{127, byte(16 + shard%100), byte(1 + (uniq/250)%250), byte(1 + uniq%250)}, func(conn int, c net.Conn) {
+		if r.sc.Proto == "Http1" {
+			aux.serveH1(0, conn, c)
+		} else {
+			aux.serveBolt(0, conn, c)
+		}
+	})
+	if err != nil {
+		return "no-socket"
 	}
-	cl, err := dialClient(r.sc.Proto, addr)
+	defer u.close()
+	cs, err := mesh.NewCaseBound(mesh.Opts{Down: r.sc.Proto, Up: r.sc.Proto, Hosts: []string{u.addr}, Timeout: 4 * time.Second})
+	if err != nil {
+		return "no-case"
+	}
+	defer cs.Close()
+	cl, err := dialClient(r.sc.Proto, cs.Addr)
 	if err != nil {
 		return "dial-failed"
 	}
 	defer cl.close(true)
-	_ = cl.send(r.request("l"+r.tok, idProbe, false, true))
+	_ = cl.send(aux.request("l"+r.tok, idProbe, false, true))
 	if cl.waitN(1, time.Now().Add(5*time.Second)) {
-		return "proxy-alive"
+		cl.mu.Lock()
+		o := cl.resp[0]
+		cl.mu.Unlock()
+		if o.Origin == "up" {
+			return "proxy-alive"
+		}
+		return fmt.Sprintf("answered-by-mosn:%d", o.Status)
 	}
 	return "no-answer"
 }
